@@ -735,6 +735,7 @@ func (c *counterP) Get() int { return c.N }
 type holderP struct {
 	P    *counterP
 	Next *holderP
+	PP   **counterP
 }
 
 func MethodsOnPointees() {
@@ -747,6 +748,7 @@ func MethodsOnPointees() {
 	ctx.Set("hv", *h)
 	ctx.Set("hs", []*holderP{h})
 	ctx.Set("m", map[string]*holderP{"k": h})
+	h.PP = &h.P
 	cases := []struct {
 		in   string
 		obj  *counterP
@@ -758,6 +760,7 @@ func MethodsOnPointees() {
 		{"<%= hs[0].P.Inc() %>,<%= hs[0].P.Inc() %>", h.P, itoa(n+1) + "," + itoa(n+2)},
 		{"<%= m[\"k\"].P.Inc() %>,<%= h.P.Inc() %>", h.P, itoa(n+1) + "," + itoa(n+2)},
 		{"<%= for (i) in [1, 2] { %><%= h.P.Inc() %>,<% } %>", h.P, itoa(n+1) + "," + itoa(n+2) + ","},
+		{"<%= h.PP.Inc() %>,<%= h.PP.Inc() %>", h.P, itoa(n+1) + "," + itoa(n+2)}, // a pointer to a pointer
 	}
 	c := cases[vrt.Choice(len(cases))]
 	got, err := render(c.in, ctx)
